@@ -11,8 +11,9 @@ namespace Mqtt.Spec.Lifecycle
 /-- causes of connection end the scenarios know -/
 def causes : List String := ["disconnect", "close", "protoerr", "oversize", "keepalive", "srvclose"]
 
-/-- buffer conditions the scenarios know -/
-def conds : List String := ["idle", "outfull", "infull", "selffull", "selfout", "cross", "chunked"]
+/-- buffer conditions the scenarios know (`chunked`: a packet that needs the last read block of the
+ring arrives in pieces and is never completed; `chunkwhole`: it is completed and processed) -/
+def conds : List String := ["idle", "outfull", "infull", "selffull", "selfout", "cross", "chunked", "chunkwhole"]
 
 /-- the expected outcome line; `-` marks what cannot be observed while Server.Close is stopping
 the witness too -/
